@@ -103,8 +103,13 @@ func Build(cfg *Cfg) *Built {
 	b := &Built{Cfg: cfg, CtxTag: new(int)}
 	b.setEnv()
 	os.Args = []string{FromAtoms(cfg.Prog)}
+	if cfg.Self {
+		os.Args = []string{"/some/where/else"}
+	}
 	root := getoptions.New()
-	if len(cfg.Desc) > 0 {
+	if cfg.Self {
+		root.Self(FromAtoms(cfg.Prog), FromAtoms(cfg.Desc))
+	} else if len(cfg.Desc) > 0 {
 		root.Self("", FromAtoms(cfg.Desc))
 	}
 	if !cfg.Late {
